@@ -314,7 +314,18 @@ pub fn expr_program(rng: &mut Rng, depth: u32, mutate: bool) -> (ExprProgram, Sc
         let one = || GExpr::Const(1, W::Unl, 0);
         let other = gen(rng, &mut sc, target, 1);
         let third = gen(rng, &mut sc, target, 0);
-        e = match rng.below(6) {
+        // a case expression used as a condition whose unsized arm does not fit the width its sized arm gives it: its value
+        // when the program runs is 2 mod 2 = 0 (known finding D28: the checker's always-true test looks at the value 2)
+        let odd_cond = || GExpr::Mux(vec![(GExpr::Const(0, W::Unl, 0), GExpr::Const(0, W::Bits(1), 3)), (GExpr::Const(1, W::Unl, 0), GExpr::Const(2, W::Unl, 0))]);
+        let pick = rng.below(40);
+        if pick >= 37 { sc.hit("nested-case-condition"); }
+        let sized = |w: u8| GExpr::Const(1, W::Bits(w), 3);
+        e = match if pick >= 37 { pick - 31 } else if pick >= 34 { 9 } else { pick % 6 } {
+            // arms of different widths, the default right after the first disagreement, and one more arm after it
+            9 => GExpr::Mux(vec![(cond(rng), sized(3)), (cond(rng), sized(5)), (one(), sized(5)), (cond(rng), sized(5))]),
+            6 => GExpr::Mux(vec![(odd_cond(), e)]),                                             // really no default
+            7 => GExpr::Mux(vec![(odd_cond(), e), (one(), other)]),                             // really one default, last
+            8 => GExpr::Mux(vec![(GExpr::Bin("==", Box::new(odd_cond()), Box::new(GExpr::Const(0, W::Unl, 0))), e)]),  // really a default
             0 => GExpr::Mux(vec![(cond(rng), e), (one(), other), (one(), third)]),              // two defaults
             1 => GExpr::Mux(vec![(cond(rng), e), (one(), other), (cond(rng), third)]),          // an arm after the default
             2 => GExpr::Mux(vec![(cond(rng), e), (cond(rng), other)]),                          // no default
